@@ -27,10 +27,17 @@ def check_equiv(chk, rule, module, cls, name, ref_src, key, what, host=None, ign
     fi = chk.prog.func(module, cls, name)
     S = chk.summary(module, cls, name, host=host, no_inline=no_inline, depth=depth, ignore_refresh=ignore_refresh)
     code_fields, ref_fields = ({}, {}) if cls is None else (ctor_field_map(chk.prog, host), _frozen_ctor_fields().get(host, {}))
+    class_defaults = {}
+    if cls is not None and name == "__init__":
+        for k_, v_ in chk.prog.class_constants(host).items():
+            try:
+                class_defaults[k_] = sym.canon(sym.NONE if v_ is None else (("str", v_) if isinstance(v_, str) else sym.num(v_)))
+            except Exception:
+                pass
     n, diffs = None, None
     for src in (ref_src,) + tuple(alt_refs):
         Rf = chk.ref(src, host, module=module, depth=depth, no_inline=no_inline, ignore_refresh=ignore_refresh)
-        n_, diffs_ = equiv.compare(S, Rf, limit=limit, ignore_fields=ignore_fields, code_fields=code_fields, ref_fields=ref_fields, final_self=ctor)
+        n_, diffs_ = equiv.compare(S, Rf, limit=limit, ignore_fields=ignore_fields, code_fields=code_fields, ref_fields=ref_fields, final_self=ctor, class_defaults=class_defaults)
         if n is None:
             n, diffs = n_, diffs_
         if n_ >= 0 and not diffs_:
